@@ -192,6 +192,21 @@ int main() {
       ++it;
     }
   }
+  // (3b) the hash is a hash of the whole 7-tuple: it depends on every exponent (for each slot there are tuples that differ in
+  // that slot only and hash differently) - a deliberately weak requirement that any reasonable hash of the tuple meets
+  for (int slot = 0; slot < 7; slot++) {
+    bool depends = false;
+    for (int bg = 0; bg <= 1 && !depends; bg++)
+      for (int v = -2; v <= 2 && !depends; v++) {
+        int a[7], b[7];
+        for (int i = 0; i < 7; i++) a[i] = b[i] = bg;
+        a[slot] = v;
+        b[slot] = v + 1;
+        depends = std::hash<Dimensions>()(mk(a)) != std::hash<Dimensions>()(mk(b));
+      }
+    vf::stat("hash_dependence_checks");
+    if (!depends) vf::viol("dims-hash-ignores-exponent|" + std::string(ABB[slot]), "{\"what\":\"std::hash<Dimensions> gives the same value for all tested tuples that differ only in this exponent\"}");
+  }
   // (4) the seven single-dimension classes: all 256 values, all 65536 pairs
   single_class<D::Time>("T", "Time");
   single_class<D::Length>("L", "Length");
